@@ -524,7 +524,7 @@ class Diagonalize(Unit):
     solver_opts = {"abstract_nl": True}
 
     def cases(self):
-        return ["d=2/K=2", "d=3/K=2"]
+        return ["d=2/K=2", "d=3/K=2", "d=2/K=1/default-outputfile"]
 
     # ------------------------------------------------------------------------------------------ callee contracts
     def _summaries(self, S):
@@ -636,32 +636,76 @@ class Diagonalize(Unit):
 
     def setup(self, ctx, case):
         d = int(case[2])
-        K = int(case.split("K=")[1])
+        K = int(case.split("K=")[1].split("/")[0])
         S = Sys(ctx, d, K)
         S.ip = ctx.obj(MOD, "InteractionParams", dict(model_name=ctx.enum(MOD, "ModelName", "inverse_power_law"), ipl_n=ctx.real("n"),
                                                       ipl_A=ctx.real("A"), harmonic_hertz_alpha=ctx.real("alpha")))
         ctx.interp.summaries.update(self._summaries(S))
         ctx.interp.loop_hints.update(self._hints(S))
-        return [S.obj, S.ip], dict(saveevecs=ctx.bool("saveevecs"), savehessian=True, outputfile="out"), dict(S=S, d=d, K=K)
+        given = "default" not in case
+        sh, se = ctx.bool("savehessian"), ctx.bool("saveevecs")
+        return [S.obj, S.ip], dict(saveevecs=se, savehessian=sh, outputfile="out" if given else ""), \
+            dict(S=S, d=d, K=K, base="out" if given else "inverse_power_law", savehessian=sh, saveevecs=se)
 
     def clause_names(self, case):
         return ["assembly:diagonal-block=sum_j-B(i,j)/m_i", "assembly:off-diagonal-block=-B(i,j)/sqrt(m_i.m_j)", "assembly:other-rows-untouched",
-                "saved-matrix=M^-1/2.d2U.M^-1/2"]
+                "saved-matrix=M^-1/2.d2U.M^-1/2", "files:hessian-iff-savehessian,evecs-iff-saveevecs,csv-always", "eigh-is-applied-to-the-saved-matrix",
+                "saved-evecs=eigenvectors", "omega=sqrt(eigenvalue)-if-positive", "PR=participation-ratio-of-eigenvector-as-(N,d)-field",
+                "frame-inputs-not-written"]
 
     def ensures(self, ctx, case, inp, out):
         S, d = inp["S"], inp["d"]
-        saves = [e for e in out.state.trace if e[0] == "np.save"]
-        hs = [e for e in saves if e[1] == "out.hessianmatrix.npy"]
-        ok = len(hs) == 1 and isinstance(hs[0][2], A.Arr) and hs[0][2].ndim == 2
-        if not ok:
-            yield "saved-matrix=M^-1/2.d2U.M^-1/2", False
+        base = inp["base"]
+        tr = out.state.trace
+        saves = [e for e in tr if e[0] == "np.save"]
+        hs = [e for e in saves if e[1] == base + ".hessianmatrix.npy"]
+        es = [e for e in saves if e[1] == base + ".evecs.npy"]
+        cs = [e for e in tr if e[0] == "to_csv"]
+        eg = [e for e in tr if e[0] == "np.linalg.eigh"]
+        sh, se = inp["savehessian"], inp["saveevecs"]
+        # which files are written is decided on this path: the flags are symbolic, so compare with the path's decisions
+        def flag(v):
+            from pyvc.state import cur
+            return ctx.interp.decide(v) if not isinstance(v, bool) else v
+        files_ok = len(hs) == (1 if flag(sh) else 0) and len(es) == (1 if flag(se) else 0) and len(cs) == 1 and len(saves) == len(hs) + len(es) \
+            and cs[0][1] == base + ".omega_PR.csv" and len(eg) == 1
+        yield "files:hessian-iff-savehessian,evecs-iff-saveevecs,csv-always", bool(files_ok)
+        stores = [e for e in out.state.events if e[0] == "store" and e[1] in S.inputs]
+        yield "frame-inputs-not-written", len(stores) == 0
+        if not files_ok:
             return
-        Hs = hs[0][2]
         a, b = ctx.int("a"), ctx.int("b")
         n = sv.mul(d, S.N)
         inr = sv.and_(a >= 0, b >= 0, sv.cmp("<", a, n), sv.cmp("<", b, n))
-        shape_ok = A.dim_eq_syntactic(Hs.shape[0], n) and A.dim_eq_syntactic(Hs.shape[1], n)
-        yield "saved-matrix=M^-1/2.d2U.M^-1/2", sv.and_(shape_ok, sv.implies(inr, sv.cmp("==", Hs.get((a, b)), S.hessian_spec(a, b))))
+
+        def is_spec(M):
+            ok = isinstance(M, A.Arr) and M.ndim == 2 and A.dim_eq_syntactic(M.shape[0], n) and A.dim_eq_syntactic(M.shape[1], n)
+            return sv.and_(ok, sv.implies(inr, sv.cmp("==", M.get((a, b)), S.hessian_spec(a, b)))) if ok else False
+        if hs:
+            yield "saved-matrix=M^-1/2.d2U.M^-1/2", is_spec(hs[0][2])
+        else:
+            yield "saved-matrix=M^-1/2.d2U.M^-1/2", True
+        _, arg, evals, evecs, w, V, _ = eg[0]
+        yield "eigh-is-applied-to-the-saved-matrix", is_spec(arg)
+        if es:
+            E = es[0][2]
+            ok = isinstance(E, A.Arr) and E.ndim == 2 and A.dim_eq_syntactic(E.shape[0], n) and A.dim_eq_syntactic(E.shape[1], n)
+            yield "saved-evecs=eigenvectors", sv.and_(ok, sv.implies(inr, sv.cmp("==", E.get((a, b)), evecs.get((a, b))))) if ok else False
+        else:
+            yield "saved-evecs=eigenvectors", True
+        # csv: columns omega, PR in this order, one row per mode
+        _, _, snap, order, ffmt, nrows, _ = cs[0]
+        ok = list(order) == ["omega", "PR"] and A.dim_eq_syntactic(nrows, n)
+        if not ok:
+            yield "omega=sqrt(eigenvalue)-if-positive", False
+            yield "PR=participation-ratio-of-eigenvector-as-(N,d)-field", False
+            return
+        k = ctx.int("k")
+        kin = sv.and_(k >= 0, sv.cmp("<", k, n))
+        lam = evals.get((k,))
+        yield "omega=sqrt(eigenvalue)-if-positive", sv.implies(kin, sv.cmp("==", snap["omega"].get((k,)), sv.ite(sv.cmp(">", lam, 0), lambda: sv.sqrt(lam), lam)))
+        vec = lambda idx: evecs.get((sv.add(sv.mul(idx[0], d), idx[1]), k))
+        yield "PR=participation-ratio-of-eigenvector-as-(N,d)-field", sv.implies(kin, sv.cmp("==", snap["PR"].get((k,)), pr_spec(vec, S.N, d)))
 
     def replay(self, case, clause, model, seed):
         return _replay_diag(case, clause, model, seed)
@@ -870,15 +914,43 @@ UNITS = [PairMatrix(), ParticipationRatio(), Diagonalize()]
 
 
 def lemmas():
-    x = sv.real("x")
-    return [("lemma:x>0=>sqrt(x.x)=x", sv.implies(x > 0, sv.cmp("==", sv.sqrt(sv.mul(x, x)), x)))]
+    """spec-level lemmas on fresh variables: the symmetry and translation clauses of the statement follow from the proved
+    form of the saved matrix (hessian_spec) by these identities"""
+    from contracts import C02
+    x_ = sv.real("x")
+    out = [("lemma:x>0=>sqrt(x.x)=x", sv.implies(x_ > 0, sv.cmp("==", sv.sqrt(sv.mul(x_, x_)), x_)), {})]
+    p1, p2 = sv.real("phi1"), sv.real("phi2")
+    for d in (2, 3):
+        x = [sv.real(f"x_{c}") for c in range(d)]
+        mx = [sv.neg(v) for v in x]
+        Bii, Bij = block_spec(x, p1, p2, d, which="ii"), block_spec(x, p1, p2, d, which="ij")
+        Bii_m, Bij_m = block_spec(mx, p1, p2, d, which="ii"), block_spec(mx, p1, p2, d, which="ij")
+        rng = [(p, q) for p in range(d) for q in range(d)]
+        # B(D(j,i))^T = B(D(i,j)) because D(j,i) = -D(i,j): the (j,i) block of the matrix is the transpose of the (i,j) block
+        out.append((f"lemma:d={d}:B(-x)^T=B(x)", sv.and_(*[sv.cmp("==", Bij_m[q][p], Bij[p][q]) for p, q in rng], *[sv.cmp("==", Bii_m[q][p], Bii[p][q]) for p, q in rng]), {"ring_only": True}))
+        out.append((f"lemma:d={d}:d2u/da.db=-d2u/da.da", sv.and_(*[sv.cmp("==", Bij[p][q], sv.neg(Bii[p][q])) for p, q in rng]), {"ring_only": True}))
+        # minimum image is odd: D(j,i) = -D(i,j)   (instances of rint(-a) = -rint(a), round-half-even, proved below)
+        Hm = [[sv.real(f"H_{a}{b}") for b in range(d)] for a in range(d)]
+        det, G = C02._inv_spec(Hm, d)
+        pp = [sv.integer(f"ppp_{k}") for k in range(d)]
+        row = [sv.real(f"r_{c}") for c in range(d)]
+        m = C02._vecmat(row, G, d)
+        rw = [(sv.rint(sv.neg(m[k])), sv.neg(sv.rint(m[k]))) for k in range(d)]
+        Dp, Dm = C02.pbc_spec_row(row, Hm, G, pp, d), C02.pbc_spec_row([sv.neg(v) for v in row], Hm, G, pp, d)
+        out.append((f"lemma:d={d}:minimum-image-is-odd:D(j,i)=-D(i,j)", sv.and_(*[sv.cmp("==", Dm[c], sv.neg(Dp[c])) for c in range(d)]), {"ring_only": True, "rewrites": rw}))
+    a_ = sv.real("a")
+    out.append(("lemma:rint(-a)=-rint(a)", sv.cmp("==", sv.rint(sv.neg(a_)), sv.neg(sv.rint(a_))), {}))
+    # translations: row (i,p) of H applied to sqrt(m) e_q is sum_j [r_ij<=rc] ( B/m_i sqrt(m_i) - B/sqrt(m_i m_j) sqrt(m_j) ): every summand vanishes
+    mi, mj, b_ = sv.real("m_i"), sv.real("m_j"), sv.real("b")
+    out.append(("lemma:translation-summand:(b/m_i).sqrt(m_i)-(b/sqrt(m_i.m_j)).sqrt(m_j)=0",
+                sv.implies(sv.and_(mi > 0, mj > 0),
+                           sv.cmp("==", sv.add(sv.mul(sv.div(b_, mi), sv.sqrt(mi)), sv.mul(sv.div(sv.neg(b_), sv.sqrt(sv.mul(mi, mj))), sv.sqrt(mj))), 0)), {}))
+    return out
 
 
 def extra_checks(tier, seed, repo):
     from pyvc.vc import prove_lemmas
-    return {"obligations": prove_lemmas("C11", lemmas())}
-
-MANIFEST = {
-    "text": "in progress",
-    "note": "in progress",
-}
+    obs = []
+    for name, goal, opts in lemmas():
+        obs.extend(prove_lemmas("C11", [(name, goal)], timeout=20, opts=opts or None))
+    return {"obligations": obs}
